@@ -26,6 +26,11 @@ fn fill_required(e: &Element, ver: AutosarVersion) {
 }
 
 fn build(tj: &Value, c: &Value) -> Option<(AutosarModel, ArxmlFile)> {
+    build_upto(tj, c, None)
+}
+
+/// the minimal document of a case; with `upto = Some(d)` only the first d elements of the path (a skeleton without the item)
+fn build_upto(tj: &Value, c: &Value, upto: Option<usize>) -> Option<(AutosarModel, ArxmlFile)> {
     let ty = c["ty"].as_str()?;
     let ver = version_of_bit(c["sver"].as_u64()?);
     let tinfo = &tj["types"][ty];
@@ -45,9 +50,15 @@ fn build(tj: &Value, c: &Value) -> Option<(AutosarModel, ArxmlFile)> {
         fill_required(&r, ver);
         Some(r)
     };
-    for step in tinfo["path"].as_array()? {
+    for (i, step) in tinfo["path"].as_array()?.iter().enumerate() {
+        if upto.is_some_and(|d| i >= d) {
+            return Some((model, file));
+        }
         let name = ElementName::from_str(step.as_str()?).ok()?;
         cur = mk(&cur, name, &mut counter)?;
+    }
+    if upto.is_some() {
+        return Some((model, file));
     }
     let item = c["item"].as_str()?;
     match c["kind"].as_str()? {
@@ -78,6 +89,18 @@ fn build(tj: &Value, c: &Value) -> Option<(AutosarModel, ArxmlFile)> {
     Some((model, file))
 }
 
+/// two files merged into one model: the skeleton (first d path elements) as base.arxml, the whole document as ext.arxml
+fn build_multi(tj: &Value, c: &Value, d: usize) -> Option<(AutosarModel, ArxmlFile, ArxmlFile, String, String)> {
+    // (the models must stay alive while their files are serialized)
+    let (_ms, fs) = build_upto(tj, c, Some(d))?;
+    let (_mf, ff) = build(tj, c)?;
+    let (ts, tf) = (fs.serialize().ok()?, ff.serialize().ok()?);
+    let m = AutosarModel::new();
+    let (base, _) = m.load_buffer(ts.as_bytes(), "base.arxml", true).map_err(|e| if std::env::var("VH_DEBUG").is_ok() { eprintln!("base: {e}") }).ok()?;
+    let (ext, _) = m.load_buffer(tf.as_bytes(), "ext.arxml", true).map_err(|e| if std::env::var("VH_DEBUG").is_ok() { eprintln!("ext: {e}\n{ts}\n{tf}") }).ok()?;
+    Some((m, base, ext, ts, tf))
+}
+
 fn relabel(text: &str, from: AutosarVersion, to: AutosarVersion) -> String {
     text.replacen(from.filename(), to.filename(), 1)
 }
@@ -86,7 +109,7 @@ pub fn run(types: &str, input: &str, output: &str) -> Value {
     let tj: Value = serde_json::from_str(&std::fs::read_to_string(types).unwrap()).unwrap();
     let fin = std::fs::File::open(input).unwrap();
     let mut out = std::io::BufWriter::new(std::fs::File::create(output).unwrap());
-    let (mut n, mut unbuildable, mut records) = (0usize, 0usize, 0usize);
+    let (mut n, mut unbuildable, mut records, mut multi) = (0usize, 0usize, 0usize, 0usize);
     let all: Vec<AutosarVersion> = expand_version_mask(u32::MAX);
     for l in std::io::BufReader::new(fin).lines() {
         let l = l.unwrap();
@@ -130,6 +153,65 @@ pub fn run(types: &str, input: &str, output: &str) -> Value {
                 "same": same, "exp": c["expmask"]})).unwrap();
             records += 1;
         }
+        // the same item in a model of two merged files: the check of a file must be the check of that file's own view.
+        // Skeleton depths: just the first AR-PACKAGE (the rest arrives below a non-splittable parent), and everything but the last element
+        let path: Vec<String> = tj["types"][c["ty"].as_str().unwrap_or("")]["path"].as_array().map(|a| a.iter().filter_map(|s| s.as_str().map(String::from)).collect()).unwrap_or_default();
+        let mut depths = vec![];
+        if let Some(i) = path.iter().position(|s| s == "AR-PACKAGE") {
+            depths.push(i + 1);
+        }
+        if path.len() >= 2 && !depths.contains(&(path.len() - 1)) {
+            depths.push(path.len() - 1);
+        }
+        for d in depths {
+            if d >= path.len() && c["kind"] != "child" {
+                continue;
+            }
+            let Some((m, base, ext, ts, tf)) = build_multi(&tj, &c, d) else { continue };
+            let d0 = text_hash(&proj(&m.root_element()).to_string());
+            let targets: Vec<AutosarVersion> = match c["tvers"].as_array() {
+                Some(a) => a.iter().filter_map(|b| b.as_u64()).map(version_of_bit).collect(),
+                None => all.clone(),
+            };
+            for (which, file, view) in [("base", &base, &ts), ("ext", &ext, &tf)] {
+                // precondition: the file's part of the merged model is its view
+                let own = file.serialize().unwrap_or_default();
+                let view_ok = {
+                    let (a, b) = (AutosarModel::new(), AutosarModel::new());
+                    a.load_buffer(own.as_bytes(), "o.arxml", true).is_ok() && b.load_buffer(view.as_bytes(), "v.arxml", true).is_ok()
+                        && proj(&a.root_element()) == proj(&b.root_element())
+                };
+                for tv in &targets {
+                    let tv = *tv;
+                    let (errs, mask) = file.check_version_compatibility(tv);
+                    let rl = relabel(&own, sver, tv);
+                    let relabel_ok = AutosarModel::new().load_buffer(rl.as_bytes(), "r.arxml", true).is_ok();
+                    // set_version of this file on a fresh copy of the merged model; the other file keeps its version
+                    let (setver_ok, after_ok, same) = match build_multi(&tj, &c, d) {
+                        Some((m2, b2, e2, _, _)) => {
+                            let f2 = if which == "base" { b2 } else { e2 };
+                            let r = f2.set_version(tv).is_ok();
+                            let same = text_hash(&proj(&m2.root_element()).to_string()) == d0;
+                            let after = if r {
+                                f2.serialize().ok().map(|t| {
+                                    let m3 = AutosarModel::new();
+                                    m3.load_buffer(t.as_bytes(), "a.arxml", true).map(|(f3, _)| f3.version() == tv).unwrap_or(false)
+                                }).unwrap_or(false)
+                            } else {
+                                true
+                            };
+                            (r, after, same)
+                        }
+                        None => (false, true, true),
+                    };
+                    writeln!(out, "{}", json!({"ty": c["ty"], "kind": format!("{}/{}@{}", c["kind"].as_str().unwrap_or(""), which, d), "item": c["item"], "sver": c["sver"],
+                        "tver": (tv as u32).trailing_zeros(), "srcok": srcok && view_ok, "nerr": errs.len(), "maskhas": tv.compatible(mask), "relabel_ok": relabel_ok,
+                        "setver_ok": setver_ok, "after_ok": after_ok, "same": same, "exp": c["expmask"]})).unwrap();
+                    records += 1;
+                    multi += 1;
+                }
+            }
+        }
     }
-    json!({"cases": n, "unbuildable": unbuildable, "records": records})
+    json!({"cases": n, "unbuildable": unbuildable, "records": records, "multi_file_records": multi})
 }
